@@ -58,8 +58,10 @@ def _innermost(e):
     return "%s:%s" % (fr[-1].filename.split("/ppci/")[-1], fr[-1].name) if fr else "?"
 
 
-def evaluate(case, hist=None, info=None):
-    """-> list of (message, details dict) for every relocation that does not resolve."""
+def evaluate(case, hist=None, info=None, defer=None):
+    """-> list of (message, details dict) for every relocation that does not resolve.
+    defer: a list that receives the control transfers to decode with llvm-mc later
+    (one llvm-mc run for many cases); None = decode them now."""
     from ppci.api import link
 
     _quiet()
@@ -178,18 +180,10 @@ def evaluate(case, hist=None, info=None):
                     branches.append((bytes(sec.data[start : start + n]), sec.address + start, want, det))
                 else:
                     branches.append((data, P, want, det))
-    if branches:
-        dec = relocref.llvm_decode(target, [(b, a) for b, a, _, _ in branches])
-        for (b, a, want, det), t in zip(branches, dec):
-            if t is None:
-                hist["unverifiable:llvm_no_target"] += 1
-                continue
-            hist["llvm_decoded"] += 1
-            if t != want:
-                d2 = dict(det)
-                d2["got"] = t
-                failures.append(("llvm-mc decodes the %s instruction %s at 0x%x as a branch to 0x%x, the symbol %s is at 0x%x%+d" % (
-                    det["type"], b.hex(), a, t, det["symbol"], det["S"], det["A"]), d2))
+    if branches and defer is not None:
+        defer.extend(branches)
+    elif branches:
+        failures.extend(check_branches(target, branches, hist))
     # SECTIONDATA copies are the load image of a section: they must hold the relocated contents
     if ld:
         for m in ld["memories"]:
@@ -207,6 +201,23 @@ def evaluate(case, hist=None, info=None):
                             arg, k, b[k : k + 8].hex(), a[k : k + 8].hex()), {"type": "sectiondata", "offset": k, "copy_is_unrelocated": bytes(pre) == b}))
     info["checked"] = checked
     info["nontrivial"] = nontrivial
+    return failures
+
+
+def check_branches(target, branches, hist):
+    """Decode the patched control transfers with llvm-mc and compare the targets."""
+    failures = []
+    dec = relocref.llvm_decode(target, [(b, a) for b, a, _, _ in branches])
+    for (b, a, want, det), t in zip(branches, dec):
+        if t is None:
+            hist["unverifiable:llvm_no_target"] += 1
+            continue
+        hist["llvm_decoded"] += 1
+        if t != want:
+            d2 = dict(det)
+            d2["got"] = t
+            failures.append(("llvm-mc decodes the %s instruction %s at 0x%x as a branch to 0x%x, the symbol %s is at 0x%x%+d" % (
+                det["type"], b.hex(), a, t, det["symbol"], det["S"], det["A"]), d2))
     return failures
 
 
@@ -268,12 +279,19 @@ def replay(case):
     return msg
 
 
+_MEMO = {}
+
+
 def classify(case, msg):
-    # re-evaluate to get the structured details of the reported failure
-    try:
-        failures = evaluate(case)
-    except Discard:
-        return None
+    # structured details of the reported failure: from the evaluation that produced it, else re-evaluate
+    from ..core import jhash
+
+    failures = _MEMO.get(jhash(case))
+    if failures is None:
+        try:
+            failures = evaluate(case)
+        except Discard:
+            return None
     open_ids = open_finding_ids(PID)
     for m, det in failures:
         if m == msg:
@@ -284,6 +302,16 @@ def classify(case, msg):
 
 # ---------------------------------------------------------------------------
 # generation
+
+
+# pad menus per target: the range edges its relocation types have
+SCALES = {
+    "x86_64": ["small", "small", "small", "byte", "byte", "byte", "half", "kilo"],
+    "riscv": ["small", "small", "small", "half", "kilo", "page", "page", "far"],
+    "riscv:rvc": ["small", "small", "small", "byte", "half", "kilo", "page", "page", "far"],
+    "arm": ["small", "small", "small", "half", "kilo", "page", "page"],
+    "arm:thumb": ["small", "small", "small", "byte", "half", "half", "kilo", "kilo", "far", "huge"],
+}
 
 
 def _size_bounds(prog):
@@ -300,7 +328,7 @@ def _size_bounds(prog):
 @st.composite
 def c11_case(draw, targets=tuple(TARGETS)):
     target = draw(st.sampled_from(list(targets)))
-    scale = draw(st.sampled_from(["small", "small", "small", "byte", "half", "kilo", "page", "far", "huge"]))
+    scale = draw(st.sampled_from(SCALES[target]))
     prog = draw(asmgen.program(target, max_objects=2, max_sections=3, max_items=draw(st.sampled_from([4, 6, 10])), pads=asmgen.PAD_SCALES[scale]))
     names = asmgen.section_names(prog)
     bounds = _size_bounds(prog)
@@ -316,15 +344,19 @@ def c11_case(draw, targets=tuple(TARGETS)):
 
 
 def _worker(arg):
+    from ..core import jhash
+
     seed, n, targets = arg
     _quiet()
     stats = Stats()
+    deferred = collections.defaultdict(list)  # target -> [(bytes, address, want, det, case)]
 
     def prop(case):
         hist = collections.Counter()
         info = {}
+        defer = []
         try:
-            failures = evaluate(case, hist, info)
+            failures = evaluate(case, hist, info, defer)
         finally:
             stats.hist.update(hist)
         cls = ["target_" + case["target"], "memories_%d" % len(case["layout"]["memories"]), "scale_" + case.get("scale", "?")]
@@ -332,17 +364,35 @@ def _worker(arg):
             cls.append("link_rejected")
         nt = bool(info.get("nontrivial"))
         stats.case(case, nt, case if nt and not stats.samples else None, classes=cls)
+        _MEMO.clear()
+        _MEMO[jhash(case)] = failures
         msg, kid = _pick(case, failures)
+        if msg is None:
+            deferred[case["target"]].extend((b, a, w, d, case) for b, a, w, d in defer)
         return msg
 
     fails = hyp_search(c11_case(targets=targets), prop, n, seed, stats, classify=classify, budget_s=900)
+    _MEMO.clear()
+    # one llvm-mc run per target for all control transfers of this worker
+    for target, items in deferred.items():
+        for i in range(0, len(items), 4000):
+            chunk = items[i : i + 4000]
+            dec = relocref.llvm_decode(target, [(b, a) for b, a, _, _, _ in chunk])
+            for (b, a, want, det, case), t in zip(chunk, dec):
+                if t is None:
+                    stats.hist["unverifiable:llvm_no_target"] += 1
+                    continue
+                stats.hist["llvm_decoded"] += 1
+                if t != want and len(fails) < 3:
+                    fails.append((case, "llvm-mc decodes the %s instruction %s at 0x%x as a branch to 0x%x, the symbol %s is at 0x%x%+d" % (
+                        det["type"], b.hex(), a, t, det["symbol"], det["S"], det["A"])))
     return stats, fails
 
 
 def run(ctx):
     if not relocref.LLVM_MC:
         raise HarnessError("llvm-mc not found")
-    n = ctx.scale(1000, 50000)
+    n = ctx.scale(800, 50000)
     args = [(subseed(ctx.seed, PID, w), n // 16, tuple(TARGETS)) for w in range(16)]
     ctx.pmap(_worker, args)
     ctx.extra["targets_covered"] = TARGETS
